@@ -31,8 +31,11 @@ use embedded_hal::spi::{ErrorType, Operation, SpiDevice};
 
 pub(crate) const LOG_LEN: usize = 24;
 /// ghost log of the SPI bus: the bytes written by the driver (first LOG_LEN write operations, first 12 bytes each)
-pub(crate) struct SpiLog { pub n: usize, pub w: [[u8; 12]; LOG_LEN], pub wl: [usize; LOG_LEN], pub reads: usize, pub fail_at: usize, pub ops: usize }
-pub(crate) static mut SPI: SpiLog = SpiLog { n: 0, w: [[0; 12]; LOG_LEN], wl: [0; LOG_LEN], reads: 0, fail_at: usize::MAX, ops: 0 };
+pub(crate) const RD_LEN: usize = 12;
+/// `rd`/`rdn`: the first RD_LEN bytes the chip answered (all Read operations, in order) -- what the status / register
+/// conversions (C17) are judged against
+pub(crate) struct SpiLog { pub n: usize, pub w: [[u8; 12]; LOG_LEN], pub wl: [usize; LOG_LEN], pub reads: usize, pub fail_at: usize, pub ops: usize, pub rd: [u8; RD_LEN], pub rdn: usize }
+pub(crate) static mut SPI: SpiLog = SpiLog { n: 0, w: [[0; 12]; LOG_LEN], wl: [0; LOG_LEN], reads: 0, fail_at: usize::MAX, ops: 0, rd: [0; RD_LEN], rdn: 0 };
 
 /// optional SX127x register-file contract (A-chip: a configuration register holds the last value written to it and
 /// reads return it).  Off by default: reads are then arbitrary bytes.  Harnesses that need read-modify-write sequences
@@ -68,7 +71,7 @@ impl SpiDevice<u8> for MockSpi {
                     Operation::Read(b) => {
                         // the chip answers with arbitrary bytes
                         let mut i = 0;
-                        while i < b.len() { b[i] = if REGS.on { REGS.r[(REGS.addr as usize + i) & 0x7f] } else { tape::stub_u8() }; i += 1; }
+                        while i < b.len() { b[i] = if REGS.on { REGS.r[(REGS.addr as usize + i) & 0x7f] } else { tape::stub_u8() }; if SPI.rdn < RD_LEN { SPI.rd[SPI.rdn] = b[i]; SPI.rdn += 1; } i += 1; }
                         SPI.reads += 1;
                     }
                     _ => {}
